@@ -237,6 +237,60 @@ def handle (j : Json) : Except String Json := do
   | "strip_io" => pure (respond .ok [("c", circuitToJson (Tx.stripIO (← circuitOfJson (← j.getObjVal? "c"))))])
   | "strip_inputs" => pure (respond .ok [("c", circuitToJson (Tx.stripInputs (← circuitOfJson (← j.getObjVal? "c"))))])
   | "strip_outputs" => pure (respond .ok [("c", circuitToJson (Tx.stripOutputs (← circuitOfJson (← j.getObjVal? "c"))))])
+  | "logic" =>
+    let fn ← (← j.getObjVal? "fn").getStr?
+    let w := match j.getObjVal? "w" with | .ok v => (match v.getNat? with | .ok n => n | .error _ => 0) | .error _ => 0
+    let r : E Circuit := match fn with
+      | "half_adder" => Logic.halfAdder
+      | "full_adder" => Logic.fullAdder
+      | "adder" => Logic.adder w (getBoolD j "carry_in" false) (getBoolD j "carry_out" false)
+      | "mux" => Logic.mux w
+      | "popcount" => Logic.popcount w
+      | _ => .error (.other "unknown generator")
+    match r with
+    | .ok c => pure (respond .ok [("c", circuitToJson c)])
+    | .error e => pure (respond e [])
+  | "clog2" =>
+    match Logic.clog2 (← (← j.getObjVal? "n").getNat?) with
+    | .ok r => pure (respond .ok [("r", jnat r)])
+    | .error e => pure (respond e [])
+  | "int_to_bin" =>
+    pure (respond .ok [("r", jarr Json.bool (Logic.intToBin (← (← j.getObjVal? "i").getNat?) (← (← j.getObjVal? "w").getNat?)
+      (getBoolD j "lend" false)))])
+  | "bin_to_int" =>
+    let b ← (← (← j.getObjVal? "b").getArr?).toList.mapM (·.getBool?)
+    pure (respond .ok [("r", jstr (toString (Logic.binToInt b (getBoolD j "lend" false))))])
+  | "query" =>
+    let c ← circuitOfJson (← j.getObjVal? "c")
+    let q ← (← j.getObjVal? "q").getStr?
+    let ns := getStrListD j "ns"
+    let listR : Except Outcome (List String) → Json := fun r => match r with
+      | .ok l => respond .ok [("r", jarr jstr l)]
+      | .error e => respond e []
+    match q with
+    | "fanin" => pure (listR (Query.faninOf c ns))
+    | "fanout" => pure (listR (Query.fanoutOf c ns))
+    | "transitive_fanin" => pure (listR (Query.transitiveFanin c ns))
+    | "transitive_fanout" => pure (listR (Query.transitiveFanout c ns))
+    | "startpoints" => pure (listR (Query.startpoints c ns))
+    | "endpoints" => pure (listR (Query.endpoints c ns))
+    | "is_cyclic" => pure (respond .ok [("r", Json.bool (Query.isCyclic c))])
+    | "topo_sort" => pure (match Query.topoSort c with
+        | some l => respond .ok [("r", jarr jstr l)]
+        | none => respond (.other "NetworkXUnfeasible") [])
+    | "fanout_depth" | "fanin_depth" =>
+      pure (match Query.depth c (q == "fanout_depth") ns (getBoolD j "maximum" true) ord 2000000 with
+        | .ok d => respond .ok [("r", jnat d)]
+        | .error e => respond e [])
+    | "levelize" => pure (match Query.levelize c with
+        | .ok l => respond .ok [("r", jarr (fun (p : String × Nat) => Json.arr #[jstr p.1, jnat p.2]) l)]
+        | .error e => respond e [])
+    | "reconvergent_fanout_nodes" => pure (respond .ok [("r", jarr jstr (Query.reconvergentFanoutNodes c ord))])
+    | "kcuts" =>
+      pure (match Query.kcuts c (← (← j.getObjVal? "k").getNat?) ord (c.nodes.length + 2) (← (← j.getObjVal? "n").getStr?) with
+        | some cuts => respond .ok [("r", jarr (jarr jstr) cuts)]
+        | none => respond .fuel [])
+    | _ => throw s!"unknown query {q}"
   | "ord" =>
     pure (respond .ok [("r", jarr jstr (ord (getStrListD j "l")))])
   | _ => throw s!"unknown op {op}"
